@@ -127,14 +127,14 @@ def run(ctx):
                 if v is None:
                     continue
                 for x in subterms(v):
-                    if x[0] == "mut" and x[1] == "add" and addr_component(x[3][0], addr_p) == 0:
+                    if ((x[0] == "mut" and x[1] == "add" and addr_component(x[3][0], addr_p) == 0) or (x[0] == "store" and addr_component(x[2], addr_p) == 0)):
                         adds_ok = True
             # paths that create a task: their final state must contain the add
             creating_paths = [rst for _pc, _t, _n, rst in s.returns if any(
                 y[0] == "call" and call_is(y, "asyncio.create_task", "asyncio.ensure_future") for v in rst.env.values() for y in subterms(v))]
             for rst in creating_paths:
                 v = rst.env.get(f"{params[0]}.{attr}", ("top", "?"))
-                has = any(x[0] == "mut" and x[1] == "add" and addr_component(x[3][0], addr_p) == 0 for x in subterms(v))
+                has = any(((x[0] == "mut" and x[1] == "add" and addr_component(x[3][0], addr_p) == 0) or (x[0] == "store" and addr_component(x[2], addr_p) == 0)) for x in subterms(v))
                 added_everywhere = added_everywhere and has
             ctx.ob("C18.a", DG, bool(creating_paths) and added_everywhere,
                    f"every path that creates a task adds the source address to self.{attr}",
